@@ -233,6 +233,11 @@ def versionIncludes (minV maxV : Ver) (s : Nat) : Bool :=
 def filterForVersion (suites : List Nat) (minV maxV : Ver) : List Nat :=
   suites.filter (versionIncludes minV maxV)
 
+/-- `_clientGetServerHello`: the suite in the ServerHello is accepted iff it is among the suites the
+    client offered, filtered for the NEGOTIATED version (minVersion = maxVersion = real_version) -/
+def clientAcceptsSuite (offered : List Nat) (realVersion : Ver) (s : Nat) : Bool :=
+  isIn s (filterForVersion offered realVersion realVersion)
+
 /-- `_filterSuites`: `s in macSuites` (the list is a concatenation; membership is the disjunction) -/
 def macAdmits (macNames : List MName) (v : Ver) (s : Nat) : Bool :=
   let ge33 := Ver.le (3, 3) v
